@@ -1,12 +1,13 @@
 #!/usr/bin/env python3
 """Runs the repository's test suite with the hook feature OFF and compares with BASELINE.json's
 stable_pass list. Exit 0 iff every stable test still passes."""
-import json, re, subprocess, sys
+import json, os, re, subprocess, sys
+REPO = os.environ.get('VERIF_REPO', '/repo')
 b = json.load(open('/root/.vp/BASELINE.json'))
 stable = set(b['stable_pass'])
 r = subprocess.run(['cargo', 'nextest', 'run', '--workspace', '--no-fail-fast', '--offline', '--test-threads', '8',
                     '--status-level', 'all', '--final-status-level', 'none', '--failure-output', 'never', '--success-output', 'never'],
-                   cwd='/repo', stdout=subprocess.PIPE, stderr=subprocess.STDOUT, text=True)
+                   cwd=REPO, stdout=subprocess.PIPE, stderr=subprocess.STDOUT, text=True)
 passed, failed = set(), set()
 for line in r.stdout.splitlines():
     m = re.match(r'\s+(PASS|FAIL|FLAKY)\s+\[[^\]]*\]\s+(?:\(\s*\d+/\d+\)\s+)?(\S+)(?:\s+(\S+))?\s+(\S+)\s*$', line)
